@@ -325,8 +325,8 @@ class Scen(CompScenario):
 class Prop(PropBase):
     ID = "C21"
     tiers = {
-        "quick": {"runs": 900, "selftest_runs": 4, "shrink_budget_s": 5},
-        "thorough": {"runs": 16000, "selftest_runs": 32, "shrink_budget_s": 30},
+        "quick": {"runs": 1000, "selftest_runs": 4, "shrink_budget_s": 5},
+        "thorough": {"runs": 20000, "selftest_runs": 32, "shrink_budget_s": 30},
     }
     rule = ("one run = one (transparent, read_on_resp, read ports, write ports, granularity, shape, memory_type, depth) "
             "configuration driven for 60-200 cycles by a seeded phase plan (random / response stall / release / "
